@@ -95,6 +95,21 @@ def run(chk):
             chk.ob("C14-R6", "%s is the minimiser of its data for every N (system rows incl. the N = 1 / N = 2 end cases, exact elimination), so necessary conditions R2-R5 are sufficient" % cls,
                    len(rel) >= 6 and not bad, bad[0]["where"] if bad else "", "%d obligations of C02-R2/R3; first failing: %s" % (len(rel), bad[0]["instance"][:160] if bad else "-"), construct=cls + "/minimiser-premise")
     chk.floor("C14-R6", 4)
+    # ---- R7 premise of the gradient clauses: the gradients the property speaks about (energy gradients propagated to
+    # waypoints, durations and boundary states) transform like the function they differentiate only if propagation is
+    # the exact adjoint of the construction map; that is C05's local-table / system-derivative / boundary obligations,
+    # re-derived here per instantiation (a sign slip in one arm of the duration term keeps the trajectory and the energy
+    # invariant but not the propagated gradient)
+    from . import c05
+    for short in SPLINES:
+        for cls in alg_classes(F, short, ("update", "propagateGrad")):
+            sub = core.Check("C05", chk.tier, chk.root)
+            c05.check_class(sub, F, spline_model(F, cls), short)
+            rel = [o for o in sub.obs if o["rule"] in ("C05-R2", "C05-R3", "C05-R4", "C05-R5")]
+            bad = [o for o in rel if not o["ok"]]
+            chk.ob("C14-R7", "%s: propagated gradients are the exact adjoint, so they inherit the invariances of the function they differentiate" % cls,
+                   len(rel) >= 10 and not bad, bad[0]["where"] if bad else "", "%d obligations of C05-R2..R5; first failing: %s" % (len(rel), bad[0]["instance"][:160] if bad else "-"), construct=cls + "/adjoint-premise")
+    chk.floor("C14-R7", 4)
     # ---- algebraic rules -------------------------------------------------------------------------------------
     for short in SPLINES:
         for cls in alg_classes(F, short, ("update", "propagateGrad")):
